@@ -1,4 +1,5 @@
 use vstd::prelude::*;
+use vstd::string::StringSliceAdditionalSpecFns;
 verus! {
 pub mod specs {
 use super::*;
@@ -59,6 +60,9 @@ pub fn vx_str_ends_with_char(s: &str, c: char) -> (r: bool) ensures r == (s@.len
 #[verifier::external_body]
 pub fn vx_string_with_capacity(n: usize) -> (r: String) ensures r@ == Seq::<char>::empty() { String::with_capacity(n) }
 
+/// Rust guarantee: no allocation (hence no str) exceeds isize::MAX bytes
+pub axiom fn str_len_bound(s: &str) ensures s.spec_bytes().len() <= isize::MAX;
+
 /// C19: what indent must produce for one line
 pub open spec fn indent_line(l: Seq<char>, p: Seq<char>) -> Seq<char> {
     if all_ws(l) { trim_end_spec(p) + l } else { p + l }
@@ -69,9 +73,23 @@ pub open spec fn join_nl(ls: Seq<Seq<char>>) -> Seq<char>
 {
     if ls.len() == 0 { Seq::empty() } else if ls.len() == 1 { ls[0] } else { join_nl(ls.drop_last()) + seq!['\n'] + ls.last() }
 }
+pub open spec fn mapped(ls: Seq<Seq<char>>, p: Seq<char>) -> Seq<Seq<char>> {
+    ls.map_values(|l: Seq<char>| indent_line(l, p))
+}
+pub proof fn join_step(ls: Seq<Seq<char>>, p: Seq<char>, k: int)
+    requires 0 <= k < ls.len()
+    ensures
+        join_nl(mapped(ls.take(k + 1), p)) =~= (if k == 0 { indent_line(ls[k], p) } else { join_nl(mapped(ls.take(k), p)) + seq!['\n'] + indent_line(ls[k], p) }),
+{
+    let m1 = mapped(ls.take(k + 1), p);
+    assert(m1.len() == k + 1);
+    assert(m1.last() == indent_line(ls[k], p));
+    assert(m1.drop_last() =~= mapped(ls.take(k), p));
+    if k == 0 { assert(m1.len() == 1); }
+}
 pub open spec fn indent_spec(s: Seq<char>, p: Seq<char>) -> Seq<char> {
     let ls = split_term_spec(s, '\n');
-    join_nl(ls.map_values(|l: Seq<char>| indent_line(l, p))) + (if s.len() > 0 && s.last() == '\n' { seq!['\n'] } else { Seq::empty() })
+    join_nl(mapped(ls, p)) + (if s.len() > 0 && s.last() == '\n' { seq!['\n'] } else { Seq::empty() })
 }
 }
 use specs::*;
@@ -79,20 +97,25 @@ use specs::*;
 pub fn indent(s: &str, prefix: &str) -> (res: String)
     ensures res@ == indent_spec(s@, prefix@)
 {
-    let mut result = vx_string_with_capacity(0);
+    proof { str_len_bound(s); }
+    let mut result = vx_string_with_capacity(2 * s.len());
     let trimmed_prefix = vx_str_trim_end(prefix);
     let mut vx_it = VxSplitTerminatorEnumerate::new(s, '\n');
     let ghost ls = split_term_spec(s@, '\n');
+    proof { assert(ls.take(ls.len() as int) =~= ls); assert(ls.take(0) =~= Seq::<Seq<char>>::empty()); assert(ls.skip(0) =~= ls); }
     while let Some((idx, line)) = vx_it.next()
         invariant
             vx_it.idx() + vx_it.rest().len() == ls.len(),
             vx_it.rest() == ls.skip(vx_it.idx() as int),
             trimmed_prefix@ == trim_end_spec(prefix@),
-            result@ == join_nl(ls.take(vx_it.idx() as int).map_values(|l: Seq<char>| indent_line(l, prefix@))),
+            result@ == join_nl(mapped(ls.take(vx_it.idx() as int), prefix@)),
+            vx_it.idx() <= ls.len(),
+            ls.take(ls.len() as int) =~= ls,
         ensures
-            result@ == join_nl(ls.map_values(|l: Seq<char>| indent_line(l, prefix@))),
+            result@ == join_nl(mapped(ls, prefix@)),
         decreases vx_it.rest().len()
     {
+        proof { join_step(ls, prefix@, idx as int); assert(ls.skip(idx as int)[0] == ls[idx as int]); }
         if idx > 0 {
             result.push('\n');
         }
